@@ -164,6 +164,9 @@ def flat_py(t, x):
         return [Arr(lambda k, items=items: k in items)] + [Arr(lambda k, items=items, c=c: items[k][c] if k in items else 0) for c in range(ncomp)]
     if isinstance(t, TRec):
         return [v for f, ft in t.fields.items() for v in flat_py(ft, x[f])]
+    if type(t).__name__ == "TSet":
+        members = {(tuple(k) if isinstance(k, list) else k) for k in x}
+        return [Arr(lambda k, members=members: k in members)]
     raise CannotConcretise(f"flat_py {t}")
 
 
